@@ -59,8 +59,8 @@ class Gen:
     def monitor(self, slot, shape, w=0, s1=0, s2=1):
         return self.op(OP_MONITOR, slot=slot, shape=shape, obj=w, s1=s1, s2=s2)
 
-    def call(self, obj, fn, a1, a2=0, in_catch=False):
-        return self.op(OP_CALL, obj=obj, fn=fn, a1=a1, a2=a2, k1=1 if in_catch else 0)
+    def call(self, obj, fn, a1, a2=0, in_catch=False, unwinding=False):
+        return self.op(OP_CALL, obj=obj, fn=fn, a1=a1, a2=a2, k1=2 if unwinding else (1 if in_catch else 0))
 
     def release(self, slot):
         return self.op(OP_RELEASE, slot=slot)
@@ -742,7 +742,14 @@ def plans_C17(g, tier):
                 g.create(3, g.shape(fn=F1, mk1='ANYM', tform='RT'), obj=0, lo=1, hi=1)])   # (the variadic _V forms are documented to stringize after macro expansion: not combined with ANY(int))
     A = [g.op(OP_PUSH_TRACER, k1=0), g.op(OP_PUSH_TRACER, k1=1), g.op(OP_POP_TRACER)]
     A += [g.call(0, F1, a) for a in (0, 1, 2)] + [g.call(0, G1, 1), g.call(0, V1, 1), g.call(0, F2, 1, 2), g.call(0, R1, 1), g.call(0, SV1, 1), g.call(0, Z0, 0), g.release(3)]
-    return [dict(name='trace', mask=M_C17, du=3 if tier == 'quick' else 4, dm=7 if tier == 'quick' else 10, alphabet=A, prefixes=pre)]
+    # every call is accepted and returns: a tracer that makes a mock call of its own for each record (kind 2), and calls made from a
+    # destructor while the stack is being unwound, are traced like any other
+    rpre = [[g.create(0, g.shape(fn=F1, mk1='ANY', tform='ALLOW'), obj=0), g.create(1, g.shape(fn=G1, mk1='ANY', tform='ALLOW'), obj=0),
+             g.create(2, g.shape(fn=V1, mk1='ANY', tform='ALLOW'), obj=0), g.create(3, g.shape(fn=F1, mk1='EQ', tform='RT'), obj=0, k1=2, lo=1, hi=INF)]]
+    RA = [g.op(OP_PUSH_TRACER, k1=0), g.op(OP_PUSH_TRACER, k1=2), g.op(OP_POP_TRACER)]
+    RA += [g.call(0, F1, 1), g.call(0, F1, 2), g.call(0, G1, 1), g.call(0, V1, 1), g.call(0, F1, 1, unwinding=True), g.call(0, V1, 2, unwinding=True), g.call(0, G1, 2, unwinding=True)]
+    return [dict(name='trace', mask=M_C17, du=3 if tier == 'quick' else 4, dm=7 if tier == 'quick' else 10, alphabet=A, prefixes=pre),
+            dict(name='trace_reentrant_unwinding', mask=M_C17, du=3, dm=6 if tier == 'quick' else 8, alphabet=RA, prefixes=rpre)]
 
 
 # ---------------------------------------------------------------- C15: the report mask applied to the violation-producing histories
